@@ -101,10 +101,15 @@ def gen(rng, tier, i):
         # stays silent, keeps its socket open after it saw the end, and finally probes with a write: by then the proxy must
         # have closed that socket as well, and the connection must be gone from /api/live
         d = max(1, b)
+        if mode == "mem" and rng.random() < 0.15:
+            # both ends write more than the buffers hold before either reads: the proxy is still handing the aborter's early bytes to
+            # a survivor that is itself blocked in its send when the abort comes
+            sc.net["chaos"] = dict(sc.net.get("chaos") or {}, capacity=4096)
+            a, d = rng.choice([4097, 20000]), 20000
         hold = Gus // 1000 + 4000
         # (the survivor only sends once the aborter has finished its handshake reads, so that the bytes really stay unread)
         ab = [op("set", flag="ready"), op("send", fill=[S1, a]), op("sleep", ms=rng.choice([1500, 3000])), op("reset", label="rst"), op("set", flag="aborted")]
-        sv = [op("wait", flag="ready", timeout_ms=big), op("send", fill=[S2, d]), op("recv_eof", timeout_ms=big, label="end", keep=0, on_fail="continue"), op("sleep", ms=hold),
+        sv = [op("wait", flag="ready", timeout_ms=big), op("send", fill=[S2, d], label="svsend"), op("recv_eof", timeout_ms=big, label="end", keep=0, on_fail="continue"), op("sleep", ms=hold),
               op("send", hex="00", on_fail="continue", label="probe1"), op("sleep", ms=1000), op("send", hex="00", on_fail="continue", label="probe2"), op("close")]
         cl, og = (ab, sv) if script == "rst-c-hold" else (sv, ab)
         sc.api_call("live", "GET", "/api/live", start_flag="aborted")
@@ -212,7 +217,16 @@ def oracle(plan, out):
                 except ValueError:
                     still = []
                 if still:
-                    v("live-after-abort", "%s aborted at %.3fs; %.0fs later the connection is still listed by /api/live" % (aborter, lab(aborter, "rst")["t1"] / 1e6, Gus / 1e6 + 2))
+                    sv_send = lab(other, "svsend")
+                    if sv_send is not None and sv_send["res"] != "ok":
+                        # the survivor itself was blocked in its send (it writes without reading, the proxy was still handing it the
+                        # aborter's early bytes): the proxy sat in a write towards a peer that does not read when the abort came -
+                        # the input class of the known finding bp-rst, reached through the hand-over of the handshake buffers
+                        V.append(Violation(ID, "live-after-abort", "C04/live-after-abort/survivor-blocked/%s" % ("splice" if meta["mode"] == "ksplice" else "buffered"),
+                                           "%s aborted at %.3fs while the proxy was blocked writing to %s, which was itself blocked in a send (%s); %.0fs later the connection is still listed by /api/live" % (
+                                               aborter, lab(aborter, "rst")["t1"] / 1e6, other, sv_send["res"], Gus / 1e6 + 2), {}))
+                    else:
+                        v("live-after-abort", "%s aborted at %.3fs; %.0fs later the connection is still listed by /api/live" % (aborter, lab(aborter, "rst")["t1"] / 1e6, Gus / 1e6 + 2))
             p2 = lab(other, "probe2")
             if p2 is not None and p2["res"] == "ok":
                 v("socket-open-after-abort", "%s aborted at %.3fs; %s could still write to its connection at %.3fs: the proxy has not closed it" % (aborter, lab(aborter, "rst")["t1"] / 1e6, other, p2["t1"] / 1e6))
